@@ -185,6 +185,10 @@ def check(ck):
     r16_6(ck)
     r16_7(ck)
     r16_8(ck)
+    from . import helpers as H
+    ck.rule('R16.9', 'deep_merge / deep_merge_check / assoc_path, with which composites are merged and embedded, keep their recursion skeleton')
+    H.deep_merge_shape(ck, 'R16.9')
+    H.assoc_path_shape(ck, 'R16.9')
 
 
 def r16_1(ck):
